@@ -2,6 +2,7 @@
 import SPProofs.Card.AssertEq
 
 namespace SPModel
+open Builder Card
 namespace Builder
 
 /-- The literal list of a block of fresh variables. -/
@@ -367,6 +368,164 @@ theorem cmpTail_spec (b4 : Builder) (kbs nbs : List Int)
     rw [hpow] at hc1 e hN
     exact ineq_core (2 ^ (nbs.length - 1)) (bitsVal τ kbs) (bitsVal τ nbs) (bitsVal τ neg)
       (bitsVal τ rest) c1 (litVal τ c) (litVal τ top) hN hR hc1 e hsafe
+
+theorem ReqSpec.trivial (b : Builder) (P : Assign → Prop) (hP : ∀ τ, P τ) :
+    ReqSpec b (.ok b) P :=
+  ⟨b, rfl, Ext.refl b, fun τ _ => hP τ, fun σ hσ _ => ⟨σ, agree_refl _ _, hσ⟩⟩
+
+/-- The widths and magnitudes make the two's-complement comparison exact. -/
+theorem ineq_safe {L W p len k c S Wc : Nat} (lt : Bool)
+    (hlenp : len ≤ 2 ^ p) (hW : W = min (p + 1) (L + 1))
+    (hkL : k < 2 ^ L) (hkge : 0 < L → 2 ^ (L - 1) ≤ k)
+    (hk1 : lt = true → k ≤ len) (hk2 : lt = false → k < len)
+    (hL2 : lt = false → L ≤ p)
+    (hc : c ≤ len) (hS : S < 2 ^ W) (hexact : W < L + 1 → S = c)
+    (hWc : Wc = if L = W then L else max L W + 1) :
+    if lt then (S < k → k - S ≤ 2 ^ (Wc - 1)) ∧ (k ≤ S → S - k < 2 ^ (Wc - 1))
+    else (k < S → S - k ≤ 2 ^ (Wc - 1)) ∧ (S ≤ k → k - S < 2 ^ (Wc - 1)) := by
+  by_cases hLW : L = W
+  · -- equal widths: only for `lt`, with `k = len = 2^p`
+    rw [if_pos hLW] at hWc
+    cases lt with
+    | false => have := hL2 rfl; omega
+    | true =>
+      have hLp : L = p + 1 := by omega
+      have h1 := hkge (by omega)
+      have h2 := hk1 rfl
+      have hSc := hexact (by omega)
+      have e : Wc - 1 = p := by omega
+      have e' : L - 1 = p := by omega
+      rw [e'] at h1
+      have := Nat.two_pow_pos p
+      simp only [if_true, e]
+      omega
+  · rw [if_neg hLW] at hWc
+    have e : Wc - 1 = max L W := by omega
+    have h1 : 2 ^ L ≤ 2 ^ (max L W) := Nat.pow_le_pow_right (by omega) (by omega)
+    have h2 : 2 ^ W ≤ 2 ^ (max L W) := Nat.pow_le_pow_right (by omega) (by omega)
+    rw [e]
+    cases lt <;> simp only [if_true, if_false, Bool.false_eq_true] <;> omega
+
+theorem inequality_spec (b : Builder) (hc : Closed b) (lt : Bool) (k : Nat) (xs : List Int)
+    (hne : xs ≠ []) (hx : ∀ x ∈ xs, LitOK b.nvars x) :
+    ReqSpec b (b.inequalityAssertion lt k xs)
+      (fun τ => if lt then litCount τ xs < k else k < litCount τ xs) := by
+  match xs, hne with
+  | x0 :: xs', _ =>
+  by_cases h1 : lt = true ∧ k > (x0 :: xs').length
+  · have g1 : (lt && decide (k > (x0 :: xs').length)) = true := by
+      have := h1.2
+      simp only [List.length_cons] at this
+      simp [h1.1]; omega
+    simp only [inequalityAssertion, g1, if_true]
+    apply ReqSpec.trivial
+    intro τ
+    rw [if_pos h1.1]
+    exact litCount_lt_of_length h1.2
+  by_cases h2 : lt = false ∧ k ≥ (x0 :: xs').length
+  · have g1 : (lt && decide (k > (x0 :: xs').length)) = false := by simp [h2.1]
+    have g2 : (!lt && decide (k ≥ (x0 :: xs').length)) = true := by
+      have := h2.2
+      simp only [List.length_cons] at this
+      simp [h2.1]; omega
+    simp only [inequalityAssertion, g1, g2, if_true, Bool.false_eq_true, if_false]
+    apply contradiction_spec b hc x0 (hx x0 (by simp))
+    intro τ
+    rw [h2.1]
+    have := litCount_le τ (x0 :: xs')
+    simp only [Bool.false_eq_true, if_false]
+    omega
+  -- the main branch
+  have hk1 : lt = true → k ≤ (x0 :: xs').length := fun h =>
+    Nat.le_of_not_lt (fun h' => h1 ⟨h, h'⟩)
+  have hk2 : lt = false → k < (x0 :: xs').length := fun h =>
+    Nat.lt_of_not_le (fun h' => h2 ⟨h, h'⟩)
+  obtain ⟨sumBits, b1, heq, g1, hok1, hlen1, hv1⟩ :=
+    popCount_full b (x0 :: xs') ((intToBinary k).length + 1) hx (by simp)
+  rw [inequality_eq b lt k x0 xs' h1 h2 sumBits b1 heq]
+  have hp := le_two_pow_clog2 (x0 :: xs').length
+  generalize clog2 (x0 :: xs').length = p at *
+  obtain ⟨gk, hnk, hvk⟩ : GExt b1 (kBlock b1 (intToBinary k)) ∧
+      (kBlock b1 (intToBinary k)).nvars = b1.nvars + (intToBinary k).length ∧
+      ∀ τ, Holds τ (kBlock b1 (intToBinary k)) →
+        (castL (b1.freshN (intToBinary k).length).1).map (litVal τ) = intToBinary k :=
+    constBlock_spec b1 (intToBinary k)
+  have hkL : k < 2 ^ (intToBinary k).length := intToBinary_lt k
+  have hkge := intToBinary_ge k
+  have hL2 : lt = false → (intToBinary k).length ≤ p := fun h =>
+    intToBinary_len_le' (Nat.lt_of_lt_of_le (hk2 h) hp)
+  generalize hLdef : (intToBinary k).length = L at *
+  obtain ⟨kv', sb', b4, hms, g4, hle4, hw4, hokx, hoky, hv4⟩ :=
+    makeSameLength_spec (kBlock b1 (intToBinary k)) (castL (b1.freshN L).1) sumBits
+      (castL_freshN_ok b1 L _ (by omega)) (fun l hl => (hok1 l hl).mono gk.le)
+  rw [hms]
+  simp only
+  have hsblen : sumBits.length = min (p + 1) (L + 1) := by rw [hlen1]; simp
+  have hwc : kv'.length = if L = sumBits.length then L else max L sumBits.length + 1 := by
+    rw [hw4]; simp
+  have hpos : 0 < kv'.length := by rw [hwc]; split <;> omega
+  -- the semantic facts shared by both directions
+  have hvals : ∀ τ, Holds τ b4 →
+      bitsVal τ kv' = k ∧ bitsVal τ sb' = bitsVal τ sumBits ∧
+      Enc τ (L + 1) sumBits (litCount τ (x0 :: xs')) := by
+    intro τ hτ
+    obtain ⟨e1, e2⟩ := hv4 τ hτ
+    refine ⟨?_, e2, hv1 τ (gk.holds (g4.holds hτ))⟩
+    rw [e1, bitsVal_eq, hvk τ (g4.holds hτ), intToBinary_val]
+  have hPc : ∀ σ τ, Agree b.nvars σ τ →
+      ((if lt then litCount σ (x0 :: xs') < k else k < litCount σ (x0 :: xs')) ↔
+       (if lt then litCount τ (x0 :: xs') < k else k < litCount τ (x0 :: xs'))) := by
+    intro σ τ ha
+    rw [litCount_congr hx ha]
+  have hsafe : ∀ τ, Holds τ b4 →
+      if lt then (bitsVal τ sumBits < k → k - bitsVal τ sumBits ≤ 2 ^ (kv'.length - 1)) ∧
+          (k ≤ bitsVal τ sumBits → bitsVal τ sumBits - k < 2 ^ (kv'.length - 1))
+      else (k < bitsVal τ sumBits → bitsVal τ sumBits - k ≤ 2 ^ (kv'.length - 1)) ∧
+          (bitsVal τ sumBits ≤ k → k - bitsVal τ sumBits < 2 ^ (kv'.length - 1)) := by
+    intro τ hτ
+    obtain ⟨_, _, henc⟩ := hvals τ hτ
+    apply ineq_safe lt hp hsblen hkL hkge hk1 hk2 hL2 (litCount_le τ (x0 :: xs'))
+      (bitsVal_lt τ sumBits) ?_ hwc
+    intro hlt
+    unfold Enc at henc
+    rw [henc, if_pos (Or.inr hlt)]
+  cases lt with
+  | true =>
+    simp only [if_true]
+    obtain ⟨top, b6, hct, g6, htop, hvt⟩ :=
+      cmpTail_spec b4 sb' kv' hoky hokx hle4.symm hpos
+    rw [hct]
+    obtain ⟨r1, r2, r3⟩ := gates_then_units hc (((g1.trans gk).trans g4).trans g6) [top]
+      (by intro l hl; simp at hl; subst hl; exact htop)
+      (fun τ => litCount τ (x0 :: xs') < k)
+      (by intro τ hτ
+          obtain ⟨e1, e2, henc⟩ := hvals τ (g6.holds hτ)
+          have hs := hsafe τ (g6.holds hτ)
+          simp only [if_true] at hs
+          have := hvt τ hτ (by rw [e1, e2]; exact hs)
+          simp only [List.mem_cons, List.not_mem_nil, or_false, forall_eq]
+          rw [this, e1, e2]
+          exact (enc_cmp henc hkL).2.1)
+      (by simpa using hPc)
+    exact ⟨_, rfl, r1, r2, r3⟩
+  | false =>
+    simp only [Bool.false_eq_true, if_false]
+    obtain ⟨top, b6, hct, g6, htop, hvt⟩ :=
+      cmpTail_spec b4 kv' sb' hokx hoky hle4 (by omega)
+    rw [hct]
+    obtain ⟨r1, r2, r3⟩ := gates_then_units hc (((g1.trans gk).trans g4).trans g6) [top]
+      (by intro l hl; simp at hl; subst hl; exact htop)
+      (fun τ => k < litCount τ (x0 :: xs'))
+      (by intro τ hτ
+          obtain ⟨e1, e2, henc⟩ := hvals τ (g6.holds hτ)
+          have hs := hsafe τ (g6.holds hτ)
+          simp only [Bool.false_eq_true, if_false] at hs
+          have := hvt τ hτ (by rw [e1, e2, ← hle4]; exact hs)
+          simp only [List.mem_cons, List.not_mem_nil, or_false, forall_eq]
+          rw [this, e1, e2]
+          exact (enc_cmp henc hkL).2.2)
+      (by simpa using hPc)
+    exact ⟨_, rfl, r1, r2, r3⟩
 
 end Builder
 end SPModel
